@@ -1,15 +1,15 @@
 #!/usr/bin/env python3
-"""development aid: apply a one-off textual mutation to a file in /repo (CRLF preserved),
+"""development aid: apply a one-off textual mutation to a file in a SCRATCH worktree of /repo (CRLF preserved),
 run the given checks (quick), restore the file.  usage:
    tools/mut.py yalafi/utils.py 'old text' 'new text' C13 [C01 ...]
 Exit 0 if every listed check reported a violation (mutant caught)."""
 import subprocess, sys, os
 f, old, new, checks = sys.argv[1], sys.argv[2], sys.argv[3], sys.argv[4:]
-p = os.path.join('/repo', f)
+S = subprocess.run(['/verif/tools/scratch.sh'], capture_output=True, text=True).stdout.strip()
+p = os.path.join(S, f)
 src = open(p, newline='').read()
 old = old.replace('\\n', '\r\n'); new = new.replace('\\n', '\r\n')
 assert src.count(old) == 1, 'pattern occurs %d times' % src.count(old)
-assert subprocess.run(['git', '-C', '/repo', 'status', '--porcelain', '--untracked-files=no'], capture_output=True, text=True).stdout == '', 'repo dirty'
 open(p, 'w', newline='').write(src.replace(old, new))
 ok = True
 try:
@@ -17,11 +17,11 @@ try:
         extra = []
         if ':' in c:
             c, t = c.split(':'); extra = ['--tier', t]
-        r = subprocess.run(['/venv/bin/python', '-m', 'yvm', c] + extra, cwd='/verif', capture_output=True, text=True)
+        r = subprocess.run(['/venv/bin/python', '-m', 'yvm', c] + extra, cwd='/verif', capture_output=True, text=True, env=dict(os.environ, YVM_REPO=S))
         lines = [l for l in r.stdout.splitlines() if l.startswith(('VIOLATION', 'INCONCLUSIVE', 'HELD', 'KNOWN', 'VIOLATED'))]
         print(c, 'exit', r.returncode, '|', ' | '.join(l[:150] for l in lines[:4]))
         if r.returncode != 1:
             ok = False
 finally:
-    subprocess.run(['git', '-C', '/repo', 'checkout', '--', f])
+    subprocess.run(['git', '-C', S, 'checkout', '--', f])
 sys.exit(0 if ok else 1)
